@@ -1,5 +1,13 @@
-"""C11 Deltas describe exactly the change between two data sets (Kani)."""
+"""C11 Deltas describe exactly the change between two data sets (Kani on StandardDelta::construct; M engine: bounded
+symbolic run of the real StandardDelta::construct and AspaDelta::construct loops against the per-key specification)."""
+import re
+
+import z3
+
+import mir
+import mprop
 from kprop import run_kani_part
+from c12 import Seq, spec_delta, rpki_action_order, F
 
 SPEC = {
     "groups": ["delta"],
@@ -28,3 +36,430 @@ def run(res, tier):
     res.rule = ("one case = one Kani harness (one pair of set sizes, all contents symbolic); non-trivial = SUCCESSFUL "
                 "with a cover witness; evaluations = CBMC checks")
     run_kani_part(res, SPEC, tier)
+    K = 3 if tier == "quick" else 4
+    res.bounds.append(
+        "M: two data sets over a universe of %d keys (every pair of subsets; ASPAs: absent or provider set 1..3 per "
+        "key): the real StandardDelta::construct and AspaDelta::construct loops are executed symbolically (push "
+        "inlined, tail closures executed symbolically) and the result - items, order, actions, ASPA provider "
+        "payloads, both counters, emptiness - is compared with the per-key specification of a delta" % K)
+    res.assumptions.append("M: the input iterators yield the sets' items in strictly ascending key order "
+                           "(PayloadCollection's invariant); iterator adapters (map, next) and Vec::push are sequence "
+                           "models; Aspa::withdraw() returns the same customer with no providers (rpki-rs)")
+    for aspa in (False, True):
+        E = mprop.engine(res)
+        run_construct(res, E, aspa, K, "aspa" if aspa else "std")
+        mprop.finish_engine(res, E)
+    E = mprop.engine(res)
+    check_payload_construct(res, E)
+    mprop.finish_engine(res, E)
+
+
+class SeqIn:
+    def __init__(self, name, aspa):
+        self.key = z3.Array(name + "_key", z3.IntSort(), z3.BitVecSort(32))
+        self.prov = z3.Array(name + "_prov", z3.IntSort(), z3.BitVecSort(8))
+        self.n = z3.Int(name + "_n")
+
+
+def spec_set(solver, seq, vals, K):
+    pos = z3.IntVal(0)
+    for x in range(K):
+        present = vals[x] != 0
+        solver.add(z3.Implies(present, z3.And(z3.Select(seq.key, pos) == x, z3.Select(seq.prov, pos) == vals[x])))
+        pos = z3.If(present, pos + 1, pos)
+    solver.add(seq.n == pos)
+
+
+def run_construct(res, E, aspa, K, tag):
+    ty = "AspaDelta" if aspa else "StandardDelta"
+    body = E.prog.find(F, ty, "construct")
+    res.functions.append("routinator::payload::delta::%s::construct with push%s inlined (MIR, %d blocks)"
+                         % (ty, ", AspaAction::withdraw" if aspa else "", len(body.blocks)))
+    fields = mir.struct_fields(ty, F)
+    i_items, i_ann, i_wd = fields.index("items"), fields.index("announce_len"), fields.index("withdraw_len")
+    if aspa:
+        vs = E.prog.enums["AspaAction"]
+    else:
+        vs, _ = rpki_action_order()
+    A = {v: vs.index(v) for v in vs}
+    is_ann = (lambda a: z3.Or(a == A["Announce"], a == A["Update"])) if aspa else (lambda a: a == A["Announce"])
+    is_wd = lambda a: a == A["Withdraw"]
+    hi = 3 if aspa else 1
+    sets = [[z3.BitVec("%s_cset%s_%d" % (tag, nm, x), 8) for x in range(K)] for nm in "ab"]
+    for s_ in sets:
+        for v in s_:
+            E.solver.add(z3.ULE(v, hi))
+    ins = [SeqIn("%s_in%d" % (tag, w), aspa) for w in range(2)]
+    for w in range(2):
+        spec_set(E.solver, ins[w], sets[w], K)
+    dd = Seq(tag + "_spec", aspa)
+    spec_delta(E.solver, dd, sets[0], sets[1], K, aspa, A)
+    counter = [0]
+    mappers = {}
+    consts = {}
+    if not aspa:
+        for v in A:
+            consts[r"^(const )?rpki::rtr::(payload::)?Action::%s$" % v] = {("disc",): z3.IntVal(A[v])}
+
+    def m_aspa_withdraw(E_, st, frame, callee, argvals, dest_ty):
+        v = E_._through_ref(st, argvals[0])
+        k = v.get((("f", 0),))
+        if k is None:
+            return NotImplemented
+        return {(("f", 0),): k, (("f", 1),): z3.BitVecVal(0, 8)}
+
+    def m_key(E_, st, frame, callee, argvals, dest_ty):
+        v = E_._through_ref(st, argvals[0])
+        k = v.get((("f", 0),))
+        return {(): k} if k is not None else NotImplemented
+
+    base_models = {r"Aspa::key$": m_key, r"rpki::rtr::payload::Aspa::withdraw$|^Aspa::withdraw$": m_aspa_withdraw}
+
+    def elem_store(E_, st, kx, px):
+        counter[0] += 1
+        loc = ("CELEM%d" % counter[0],)
+        if aspa:
+            E_.store(st, loc, {(("f", 0),): kx, (("f", 1),): px})
+        else:
+            E_.store(st, loc, {(): kx})
+        return loc
+
+    def mapper_result(key):
+        """Run a tail mapper (closure or fn item) on a symbolic element: field dict over (kx, px)."""
+        if key in mappers:
+            return mappers[key]
+        kx, px = z3.BitVec("map_key", 32), z3.BitVec("map_prov", 8)
+        if key.startswith("fn:"):
+            b = E.prog.find(F, key[3:].split("::")[0], key[3:].split("::")[1])
+            argn = "_1"
+        else:
+            b = E.prog.closure_by_loc[key].parse()
+            argn = "_2"
+        E2 = mir.Engine(E.prog, res)
+
+        def pre2(E_, st, frame):
+            loc = elem_store(E_, st, kx, px)
+            E_.store(st, (frame["id"] + ":" + argn,), {(): mir.Ref(loc)})
+
+        ps = [p for p in E2.explore(b, max_visits=2, pre=pre2, consts=consts, models=base_models) if p.kind == "return"]
+        if len(ps) != 1:
+            raise mir.Inconclusive("tail mapper %s has %d returning paths" % (key, len(ps)))
+        ret = ps[0].ret
+        proj = isinstance(ret.get(()), mir.Ref)
+        mappers[key] = (kx, px, ret, proj)
+        return mappers[key]
+
+    def m_map(E_, st, frame, callee, argvals, dest_ty):
+        v = argvals[0]
+        if ("w",) not in v:
+            return NotImplemented
+        m = re.search(r"\{closure@([^}]*)\}>?\(?$", callee.strip()) or re.search(r"\{closure@([^}]*)\}>$", callee.strip())
+        cl = re.findall(r"\{closure@([^}]*)\}", callee)
+        fnitem = re.search(r"\{(\w+::\w+)\}>$", callee.strip())
+        if fnitem:
+            key = "fn:" + fnitem.group(1)
+        elif cl:
+            key = cl[-1]
+        else:
+            return NotImplemented
+        out = {k: v[k] for k in (("w",), ("s",), ("n",))}
+        if aspa and ("proj",) not in v:
+            # the first adapter of AspaDelta::construct: |(item, _)| item over (&Aspa, &PayloadInfo)
+            b = E_.prog.closure_by_loc.get(key)
+            txt = "\n".join(st_ for blk in b.parse().blocks.values() for st_ in blk["stmts"]) if b else ""
+            if not re.search(r"_0 = copy \(_2\.0: &", txt):
+                return NotImplemented
+            out[("proj",)] = z3.IntVal(1)
+            return out
+        if ("proj",) in v:
+            out[("proj",)] = v[("proj",)]
+        out[("mapper",)] = mir.Str(key)
+        return out
+
+    def m_next(E_, st, frame, callee, argvals, dest_ty):
+        r = argvals[0].get(())
+        if not isinstance(r, mir.Ref):
+            return NotImplemented
+        cur = E_.load(st, r.loc)
+        if ("w",) not in cur or ("mapper",) in cur:
+            return NotImplemented
+        s0, n0 = cur[("s",)], cur[("n",)]
+        has = n0 > 0
+        new = dict(cur)
+        new[("s",)] = z3.simplify(z3.If(has, s0 + 1, s0))
+        new[("n",)] = z3.simplify(z3.If(has, n0 - 1, n0))
+        E_.store(st, r.loc, new)
+        seq = ins[cur[("w",)].as_long()]
+        loc = elem_store(E_, st, z3.Select(seq.key, s0), z3.Select(seq.prov, s0))
+        return {("disc",): z3.If(has, z3.IntVal(1), z3.IntVal(0)), (("v", "Some"), ("f", 0)): mir.Ref(loc)}
+
+    def m_default(E_, st, frame, callee, argvals, dest_ty):
+        return {(("f", i_items), "len"): z3.IntVal(0),
+                (("f", i_ann),): z3.BitVecVal(0, 64), (("f", i_wd),): z3.BitVecVal(0, 64)}
+
+    def m_vecpush(E_, st, frame, callee, argvals, dest_ty):
+        r = argvals[0].get(())
+        if not isinstance(r, mir.Ref):
+            return NotImplemented
+        cur = E_.load(st, r.loc)
+        if ("len",) not in cur:
+            return NotImplemented
+        k = cur[("len",)].as_long()
+        new = dict(cur)
+        for key, v in argvals[1].items():
+            new[(("e", k),) + key] = v
+        new[("len",)] = z3.IntVal(k + 1)
+        E_.store(st, r.loc, new)
+        return {(): mir.Str("()")}
+
+    def mapped(kx0, px0, ret, kx, px):
+        return {k: (z3.substitute(v, (kx0, kx), (px0, px)) if mir.is_z(v) else v) for k, v in ret.items()}
+
+    def m_extend(E_, st, frame, callee, argvals, dest_ty):
+        r = argvals[0].get(())
+        it = argvals[1]
+        if not isinstance(r, mir.Ref) or ("w",) not in it or not isinstance(it.get(("mapper",)), mir.Str):
+            return NotImplemented
+        kx0, px0, ret, proj = mapper_result(it[("mapper",)].s)
+        act0 = ret.get((("f", 1), "disc"))
+        if act0 is None or proj:
+            return NotImplemented
+        cur = E_.load(st, r.loc)
+        seq = ins[it[("w",)].as_long()]
+        s0, n0 = it[("s",)], it[("n",)]
+        ann, wd = cur[(("f", i_ann),)], cur[(("f", i_wd),)]
+        for j in range(K):
+            a = z3.substitute(act0, (kx0, z3.Select(seq.key, s0 + j)), (px0, z3.Select(seq.prov, s0 + j))) if mir.is_z(act0) else act0
+            ann = ann + z3.If(z3.And(j < n0, is_ann(a)), z3.BitVecVal(1, 64), z3.BitVecVal(0, 64))
+            wd = wd + z3.If(z3.And(j < n0, is_wd(a)), z3.BitVecVal(1, 64), z3.BitVecVal(0, 64))
+        new = dict(cur)
+        new[(("f", i_ann),)] = ann
+        new[(("f", i_wd),)] = wd
+        new[(("f", i_items), "tail_w")] = it[("w",)]
+        new[(("f", i_items), "tail_s")] = s0
+        new[(("f", i_items), "tail_n")] = n0
+        new[(("f", i_items), "tail_m")] = it[("mapper",)]
+        E_.store(st, r.loc, new)
+        return {(): mir.Str("()")}
+
+    def pre(E_, st, frame):
+        for w, a in enumerate(("_1", "_2")):
+            E_.store(st, (frame["id"] + ":" + a,), {("w",): z3.IntVal(w), ("s",): z3.IntVal(0), ("n",): ins[w].n})
+
+    models = dict(base_models)
+    models.update({
+        r"^<%s(<.*>)? as Default>::default$" % ty: m_default,
+        r" as Iterator>::map::<": m_map,
+        r" as Iterator>::next$": m_next,
+        r"^Vec::<.*>::push$": m_vecpush,
+        r"%s(::<.*>)?::extend::<" % ty: m_extend,
+    })
+    paths = E.explore(body, max_visits=2 * K + 3, pre=pre, consts=consts, max_paths=400000,
+                      inline=[r"%s(::<.*>)?::push$" % ty, r"AspaAction::withdraw$"], models=models)
+    n_ret = 0
+    shapes = set()
+    reported = set()
+
+    def fields_of(d, base):
+        if not aspa:
+            return d.get(base + (("f", 0),)), d.get(base + (("f", 1), "disc")), None, None
+        kk = d.get(base + (("f", 0), ("f", 0)))
+        pp = d.get(base + (("f", 0), ("f", 1)))
+        aa = d.get(base + (("f", 1), "disc"))
+        ou = d.get(base + (("f", 1), ("v", "Update"), ("f", 0)))
+        ow = d.get(base + (("f", 1), ("v", "Withdraw"), ("f", 0)))
+        oo = None
+        if aa is not None:
+            zero = z3.BitVecVal(0, 8)
+            oo = z3.If(aa == A["Update"], ou if mir.is_z(ou) else zero, ow if mir.is_z(ow) else zero)
+        return kk, aa, pp, (oo, ou, ow)
+
+    def same(kk, aa, pp, oo, idx):
+        c = [kk == z3.Select(dd.key, idx), aa == z3.Select(dd.act, idx)]
+        if aspa:
+            c.append(pp == z3.Select(dd.prov, idx))
+            c.append(z3.Implies(aa != A["Announce"], oo == z3.Select(dd.orig, idx)))
+        return z3.And(c)
+
+    for i, p in enumerate(paths):
+        if p.kind == "bound":
+            res.inconclusive.append("%s::construct: a feasible path exceeds %d loop iterations with %d keys" % (ty, 2 * K + 3, K))
+            continue
+        if p.kind != "return":
+            if p.kind == "panic" and E.feasible(p.cond):
+                fn = mprop.write_cex(res, "%s_construct_panic_%d" % (tag, i), p, E, "construct panics", E.model(p.cond))
+                res.violation("mir:construct:%s:panic" % tag, "%s::construct can panic" % ty, fn)
+            continue
+        n_ret += 1
+        ret = p.ret
+        ln = ret.get((("f", i_items), "len"))
+        if ln is None:
+            res.inconclusive.append("%s::construct: returned value has no modelled item list (path %d)" % (ty, i))
+            continue
+        m = ln.as_long()
+        tn = ret.get((("f", i_items), "tail_n"))
+        nt = z3.If(tn > 0, tn, z3.IntVal(0)) if tn is not None else z3.IntVal(0)
+        good = [m + nt == dd.n]
+        shape = []
+        bad_model = False
+        for k in range(m):
+            kk, aa, pp, o3 = fields_of(ret, (("f", i_items), ("e", k)))
+            oo = o3[0] if o3 else None
+            if aspa and aa is not None:
+                _, ou, ow = o3
+                if (not mir.is_z(ou) and E.feasible(p.cond, aa == A["Update"])) or (not mir.is_z(ow) and E.feasible(p.cond, aa == A["Withdraw"])):
+                    kk = None
+            if not all(mir.is_z(v) for v in ([kk, aa] + ([pp] if aspa else []))):
+                res.inconclusive.append("%s::construct: pushed element %d on path %d not fully modelled" % (ty, k, i))
+                bad_model = True
+                break
+            good.append(same(kk, aa, pp, oo, z3.IntVal(k)))
+            shape.append(str(z3.simplify(aa)))
+        if bad_model:
+            continue
+        if tn is not None:
+            tw = ret[(("f", i_items), "tail_w")].as_long()
+            ts = ret[(("f", i_items), "tail_s")]
+            kx0, px0, mret, _ = mapper_result(ret[(("f", i_items), "tail_m")].s)
+            seq = ins[tw]
+            for j in range(K):
+                md = mapped(kx0, px0, mret, z3.Select(seq.key, ts + j), z3.Select(seq.prov, ts + j))
+                kk, aa, pp, o3 = fields_of(md, ())
+                if not all(mir.is_z(v) for v in ([kk, aa] + ([pp] if aspa else []))):
+                    res.inconclusive.append("%s::construct: tail mapper result not fully modelled (path %d)" % (ty, i))
+                    bad_model = True
+                    break
+                good.append(z3.Implies(j < nt, same(kk, aa, pp, o3[0] if o3 else None, z3.IntVal(m) + j)))
+        if bad_model:
+            continue
+        ann = z3.BitVecVal(0, 64)
+        wd = z3.BitVecVal(0, 64)
+        for j in range(K):
+            a = z3.Select(dd.act, j)
+            ann = ann + z3.If(z3.And(j < dd.n, is_ann(a)), z3.BitVecVal(1, 64), z3.BitVecVal(0, 64))
+            wd = wd + z3.If(z3.And(j < dd.n, is_wd(a)), z3.BitVecVal(1, 64), z3.BitVecVal(0, 64))
+        ra, rw = ret.get((("f", i_ann),)), ret.get((("f", i_wd),))
+        if not (mir.is_z(ra) and mir.is_z(rw)):
+            res.inconclusive.append("%s::construct: counters not modelled on path %d" % (ty, i))
+            continue
+        shapes.add((tuple(shape), tn is not None))
+        for what, cond_ok, key in (("lists actions other than the change between the sets", z3.And(good), "items"),
+                                   ("has counts that differ from the listed actions", z3.And(ra == ann, rw == wd), "counts")):
+            if key in reported:
+                continue
+            mdl = E.model(p.cond, z3.Not(cond_ok))
+            if mdl is not None:
+                reported.add(key)
+                cex = {nm: [mdl.eval(v, model_completion=True).as_long() for v in s_] for nm, s_ in zip("ab", sets)}
+                desc = "%s::construct(a, b) %s for a=%s b=%s (per key 0..%d: 0 absent%s)" % (
+                    ty, what, cex["a"], cex["b"], K - 1, ", n = provider set n" if aspa else ", 1 present")
+                fn = mprop.write_cex(res, "%s_construct_%s_%d" % (tag, key, i), p, E, desc, mdl)
+                ok = replay(res, aspa, cex)
+                if ok is False:
+                    res.inconclusive.append("counterexample %s did not reproduce natively" % desc)
+                else:
+                    res.violation("mir:construct:%s:%s" % (tag, key), desc + ("; reproduced natively" if ok else " [native replay unavailable]"), fn)
+    res.distinct += len(shapes)
+    res.samples.append({"function": ty + "::construct", "keys": K, "returning_paths": n_ret, "distinct_output_shapes": len(shapes)})
+    if n_ret < 4:
+        res.inconclusive.append("%s::construct: only %d returning paths explored" % (ty, n_ret))
+
+
+NATIVE_TMPL = """// generated by props/c11.py: native replay of a solver-found pair of data sets
+use super::*;
+use std::sync::Arc;
+use rpki::resources::Asn;
+
+const ASPA: bool = @ASPA@;
+const STD: [&[u32]; 2] = [@STD@];
+const SETS: [&[(u32, u32)]; 2] = [@SETS@];
+
+fn prov(p: u32) -> ProviderAsns { ProviderAsns::try_from_iter([Asn::from_u32(64500 + p)]).unwrap() }
+
+#[test]
+fn c11_native_construct() {
+    if ASPA {
+        let s: Vec<Vec<(Aspa, PayloadInfo)>> = SETS.iter().map(|set| set.iter().map(|(c, p)| (
+            Aspa::new(Asn::from_u32(*c), prov(*p)), PayloadInfo::from(Arc::new(crate::slurm::ExceptionInfo::default()))
+        )).collect()).collect();
+        let d = AspaDelta::construct(s[0].iter().map(|(a, b)| (a, b)), s[1].iter().map(|(a, b)| (a, b)));
+        // reference: per-key comparison of the two maps
+        let mut want = Vec::new();
+        let mut keys: Vec<u32> = SETS[0].iter().chain(SETS[1].iter()).map(|x| x.0).collect();
+        keys.sort(); keys.dedup();
+        for k in keys {
+            let a = SETS[0].iter().find(|x| x.0 == k).map(|x| x.1);
+            let b = SETS[1].iter().find(|x| x.0 == k).map(|x| x.1);
+            match (a, b) {
+                (None, Some(p)) => want.push(format!("{:?}", (Aspa::new(Asn::from_u32(k), prov(p)), AspaAction::Announce))),
+                (Some(p), None) => want.push(format!("{:?}", (Aspa::new(Asn::from_u32(k), ProviderAsns::empty()), AspaAction::Withdraw(prov(p))))),
+                (Some(p), Some(q)) if p != q => want.push(format!("{:?}", (Aspa::new(Asn::from_u32(k), prov(q)), AspaAction::Update(prov(p))))),
+                _ => {}
+            }
+        }
+        let got: Vec<String> = d.items.iter().map(|i| format!("{:?}", i)).collect();
+        let wd = d.items.iter().filter(|i| matches!(i.1, AspaAction::Withdraw(_))).count();
+        println!("NATIVE-C11 got={:?} want={:?} announce_len={} withdraw_len={}", got, want, d.announce_len, d.withdraw_len);
+        assert_eq!(got, want, "delta differs from the change between the sets");
+        assert!(d.announce_len == d.items.len() - wd && d.withdraw_len == wd, "counters differ from the listed actions");
+        assert_eq!(d.is_empty(), want.is_empty());
+    }
+    else {
+        let d = StandardDelta::<u32>::construct(STD[0].iter(), STD[1].iter());
+        let mut want = Vec::new();
+        let mut keys: Vec<u32> = STD[0].iter().chain(STD[1].iter()).copied().collect();
+        keys.sort(); keys.dedup();
+        for k in keys {
+            match (STD[0].contains(&k), STD[1].contains(&k)) {
+                (false, true) => want.push(format!("{:?}", (k, Action::Announce))),
+                (true, false) => want.push(format!("{:?}", (k, Action::Withdraw))),
+                _ => {}
+            }
+        }
+        let got: Vec<String> = d.items.iter().map(|i| format!("{:?}", i)).collect();
+        let wd = d.items.iter().filter(|i| matches!(i.1, Action::Withdraw)).count();
+        println!("NATIVE-C11 got={:?} want={:?} announce_len={} withdraw_len={}", got, want, d.announce_len, d.withdraw_len);
+        assert_eq!(got, want, "delta differs from the change between the sets");
+        assert!(d.announce_len == d.items.len() - wd && d.withdraw_len == wd, "counters differ from the listed actions");
+        assert_eq!(d.is_empty(), want.is_empty());
+    }
+}
+"""
+
+
+def replay(res, aspa, cex):
+    import os
+    import nativetest
+    from vcommon import VERIF
+    std = ", ".join("&[" + ", ".join("%d" % x for x, v in enumerate(cex[nm]) if v) + "]" for nm in "ab")
+    sets = ", ".join("&[" + ", ".join("(%d, %d)" % (x, v) for x, v in enumerate(cex[nm]) if v) + "]" for nm in "ab")
+    with open(os.path.join(VERIF, "native", "c11_generated.rs"), "w") as f:
+        f.write(NATIVE_TMPL.replace("@ASPA@", "true" if aspa else "false")
+                .replace("@STD@", std if not aspa else "&[], &[]").replace("@SETS@", sets if aspa else "&[], &[]"))
+    failed, passed, out = nativetest.run_native_test("native_c11", "c11_native_construct")
+    line = [l for l in out.splitlines() if "NATIVE-C11" in l]
+    res.notes.append("native replay: " + (" | ".join(line)[:900] if line else "no output: " + out[-400:]))
+    return True if failed else (False if passed else None)
+
+
+def check_payload_construct(res, E):
+    """PayloadDelta::construct: each payload type's delta is built from (old, new) of that type, the serial is the
+    given one, and None is returned exactly when all three deltas are empty."""
+    body = E.prog.find(F, "PayloadDelta", "construct")
+    res.functions.append("routinator::payload::delta::PayloadDelta::construct (MIR, %d blocks)" % len(body.blocks))
+    paths = [p for p in E.explore(body, max_visits=2, arg_values={"_1": {(): mir.Ref(("OLDSNAP",))}, "_2": {(): mir.Ref(("NEWSNAP",))}},
+                                  pure=[r"is_empty$"]) if p.kind == "return"]
+    n = 0
+    for i, p in enumerate(paths):
+        n += 1
+        calls = [e for e in p.events if e.kind == "call" and re.search(r"(StandardDelta|AspaDelta)(::<.*>)?::construct", e.name)]
+        if len(calls) != 3:
+            fn = mprop.write_cex(res, "payload_construct_%d" % i, p, E, "PayloadDelta::construct builds %d per-type deltas, not 3" % len(calls))
+            res.violation("mir:payload-construct:types", "PayloadDelta::construct does not build one delta per payload type", fn)
+            continue
+        d = p.ret.get(("disc",))
+        empt = [e for e in p.events if re.search(r"is_empty$", e.name)]
+        if d is not None and E.feasible(p.cond, d == 0) and len(empt) < 1:
+            fn = mprop.write_cex(res, "payload_construct_none_%d" % i, p, E, "None returned without testing emptiness")
+            res.violation("mir:payload-construct:none", "PayloadDelta::construct returns None without the delta being empty", fn)
+    res.distinct += n
